@@ -1116,6 +1116,11 @@ fn check_record(walk: &mut Walk, g: &Game, history: &[(Pos, Mv)], step: &Step, s
 // parent
 
 pub fn run(prop: &str, tier: &str, seed: u64) -> i32 {
+    let (chk, agg) = run_parts(prop, tier, seed);
+    finalize(chk, &agg)
+}
+
+pub fn run_parts(prop: &str, tier: &str, seed: u64) -> (Check, Agg) {
     let nshards = 16usize.max(par::ncores());
     let mut chk = Check::new(prop, tier, seed, "exploration");
     let watchdog = Duration::from_secs(if tier == "thorough" { 7200 } else { 900 });
@@ -1131,7 +1136,7 @@ pub fn run(prop: &str, tier: &str, seed: u64) -> i32 {
                 "case": {"hash": format!("{h:016X}"), "src": src.to_string(), "fen": fen_of}}));
         }
     }
-    finalize(chk, &agg)
+    (chk, agg)
 }
 
 fn summarize(prop: &str, chk: &mut Check, agg: &Agg) {
